@@ -75,7 +75,7 @@ pub fn run(ctx: &mut Ctx) -> Report {
 		#[cfg(not(feature = "nocrypto"))]
 		{
 			if CertificateSigningRequestParams::from_pem(&text).is_err() {
-				s.rep.violate("C14:own-loader:request", "CertificateSigningRequestParams::from_pem refuses rcgen's own PEM", text.clone());
+				s.rep.violate(&format!("C14:own-loader:request:{}", alg), "CertificateSigningRequestParams::from_pem refuses rcgen's own PEM", text.clone());
 			}
 		}
 		// CRL
